@@ -3,8 +3,8 @@ import PersimVerif.Model.MGH
 /-!
   driver commands for C05 (model at `Nat`):
 
-    mgh.lb <DX> <DY> <bitsX> <bitsY>            → double_lb           (`find_lb`; bits = width of the matrices' dtype)
-    mgh.curv <DX> <bits> <d>                    → kept row indices    (`find_largest_size_bounded_curvature`)
+    mgh.lb <DX> <DY>                            → double_lb           (`find_lb`)
+    mgh.curv <DX> <d>                           → [K, kept row indices] (`find_largest_size_bounded_curvature`)
     mgh.dists <D> <max_d>                       → rows as distributions
     mgh.umax <distributions>                    → `find_unique_max_distributions`
     mgh.feas <v_dist> <u_dist> <d>              → T/F                 (`check_assignment_feasibility`, d ≥ 1)
@@ -12,7 +12,7 @@ import PersimVerif.Model.MGH
     mgh.map <DX> <DY> <pi> <y0>                 → [[images],distortion]   (`construct_mapping`)
     mgh.ubmin <DX> <DY> <perms> <y0s> <goal>    → [ub,mappings built]     (`find_ub_of_min_distortion`)
     mgh.ub <DX> <DY> <pXY> <yXY> <pYX> <yYX> <lb> → [ub,k1,k2]            (`find_ub`)
-    mgh.est <DX> <DY> <bitsX> <bitsY> <pXY> <yXY> <pYX> <yYX> → [double_lb,double_ub]  (`estimate`)
+    mgh.est <DX> <DY> <pXY> <yXY> <pYX> <yYX>   → [double_lb,double_ub]  (`estimate`)
     mgh.spec <DX> <DY>                          → exhaustive 2·mGH for |X|,|Y| ≤ 6
 
   Shapes are checked here (square matrices, permutation entries and first images in range); anything
@@ -37,15 +37,13 @@ def exceptVal : Except Err Val → Val
   | .error .overflow => err "OverflowError"
 
 def handle : Handler
-  | "mgh.lb", [dx, dy, bx, by'] => do
+  | "mgh.lb", [dx, dy] => do
     let DX ← natMat? dx; let DY ← natMat? dy
-    let bX ← asNat? bx; let bY ← asNat? by'
-    if bX == 0 || bY == 0 then none
-    pure (ofNat (findLb (wrapMul bX) (wrapMul bY) DX DY))
-  | "mgh.curv", [dx, b, d] => do
-    let DX ← natMat? dx; let bX ← asNat? b; let d ← asNat? d
-    if bX == 0 then none
-    pure (ofNats (largestBoundedCurvatureIdx (wrapMul bX) DX (matMax DX) d))
+    pure (ofNat (findLb exactMul exactMul DX DY))
+  | "mgh.curv", [dx, d] => do
+    let DX ← natMat? dx; let d ← asNat? d
+    let r := largestBoundedCurvature exactMul DX (matMax DX) d
+    pure (.list [.list (r.1.map ofNats), ofNats r.2])
   | "mgh.dists", [dm, md] => do
     let D ← matOf? asNat? dm; let maxD ← asNat? md
     if D.any (fun r => r.any (· > maxD)) then none
@@ -80,15 +78,13 @@ def handle : Handler
     if !(permsOk DX.length perms1) || y0s1.any (· ≥ DY.length) then none
     if !(permsOk DY.length perms2) || y0s2.any (· ≥ DX.length) then none
     pure (exceptVal ((findUb DX DY perms1 y0s1 perms2 y0s2 lb).map fun r => ofNats [r.1, r.2.1, r.2.2]))
-  | "mgh.est", [dx, dy, bx, by', p1, y1, p2, y2] => do
+  | "mgh.est", [dx, dy, p1, y1, p2, y2] => do
     let DX ← natMat? dx; let DY ← natMat? dy
-    let bX ← asNat? bx; let bY ← asNat? by'
     let perms1 ← matOf? asNat? p1; let y0s1 ← natList? y1
     let perms2 ← matOf? asNat? p2; let y0s2 ← natList? y2
-    if bX == 0 || bY == 0 then none
     if !(permsOk DX.length perms1) || y0s1.any (· ≥ DY.length) then none
     if !(permsOk DY.length perms2) || y0s2.any (· ≥ DX.length) then none
-    pure (exceptVal ((estimate (wrapMul bX) (wrapMul bY) DX DY perms1 y0s1 perms2 y0s2).map
+    pure (exceptVal ((estimate exactMul exactMul DX DY perms1 y0s1 perms2 y0s2).map
       fun r => ofNats [r.1, r.2]))
   | "mgh.spec", [dx, dy] => do
     let DX ← natMat? dx; let DY ← natMat? dy
